@@ -277,11 +277,12 @@ Section ABF.
 
   (* ---- script entry points `cv bias <name> bin | bincount | binnum` (colvarbias_abf::current_bin, bin_count,
      bin_num; colvar_grid::current_bin_flat_bound, value_to_bin_scalar_bound, address): the bin of the current values
-     with every index brought into the grid (periodic: C++ remainder, then clipped to [0, nx-1]), its flat address, the
+     with every index brought into the grid (periodic: C++ remainder, made non-negative by adding nx -- the wrapped bin --,
+     then clipped to [0, nx-1]), its flat address, the
      count stored there (also local_sample_count(0)), and the number of bins *)
   Definition bound1 (c : abf_cfg) (k : nat) (b : Z) : Z :=
     let n := zget (c_nx c) k in
-    let b1 := if bget (c_periodic c) k then Z.rem b n else b in
+    let b1 := if bget (c_periodic c) k then (let r := Z.rem b n in if r <? 0 then r + n else r) else b in
     if b1 <? 0 then 0 else if n <=? b1 then n - 1 else b1.
   Definition bins_bound (c : abf_cfg) (x : vec) : idx :=
     map (fun k => bound1 c k (value_to_bin (vget (c_lower c) k) (vget (c_width c) k) (vget x k))) (seq 0 (c_nd c)).
@@ -299,23 +300,27 @@ Section ABF.
      colvar::update_forces_energy subtracts k * fj with hideJacobian.
      [abf_mstep] reuses [abf_step] for the grids, bin, force_bin, ABF force and total force; the fields of the state
      that only the lagged convention reads (s_eng, s_fold, s_fprev) are not meaningful here. *)
-  Definition awake (k : Z) (clk : Z * bool) : bool := (k <=? 1) || (fst clk mod k =? 0).
+  (* K = (k, t0): the factor, and the absolute number cvm::step_absolute() of the step at which step_relative() = 0
+     (`it_restart`: the engine's step number at the start of the job, which may be huge); awake iff the ABSOLUTE step
+     number is a multiple of k *)
+  Definition awake (K : Z * Z) (clk : Z * bool) : bool := (fst K <=? 1) || ((snd K + fst clk) mod fst K =? 0).
   Definition abf_sleep (c : abf_cfg) (s : abf_state) (i : abf_in) : abf_state * abf_out :=
     (mkSt (s_cnt s) (s_sum s) (s_bin s) (s_fbin s) (s_fabf s) (s_fprev s) (s_ft s) (s_fold s) (s_eng s) (s_fj s)
           (fst (st_clk s i)) true (s_japp s) (s_tfok s),
      mkOut (s_bin s) (s_fabf s) (vzero (c_nd c)) (vzero (c_nd c)) (fst (st_clk s i)) (snd (st_clk s i)) (s_ft s)).
-  Definition mts_out (c : abf_cfg) (k : Z) (i : abf_in) (o : abf_out) : abf_out :=
+  Definition mts_out (c : abf_cfg) (K : Z * Z) (i : abf_in) (o : abf_out) : abf_out :=
+    let k := fst K in
     let fapp := vbuild (c_nd c) (fun d => nmul O (nmul O (nofZ O k) (vget (o_fabf o) d)) (sfac c (st_bin c i))) in
     mkOut (o_bin o) (o_fabf o) fapp
           (vbuild (c_nd c) (fun d =>
              let fb := nadd O (vget fapp d) (oeff c i d) in
              nadd O (if c_hidej c && cvapply c i d then nsub O fb (nmul O (vget (i_j i) d) (nofZ O k)) else fb) (weff c i d)))
           (o_rel o) (o_cont o) (o_tf o).
-  Definition abf_mstep (c : abf_cfg) (k : Z) (s : abf_state) (i : abf_in) : abf_state * abf_out :=
+  Definition abf_mstep (c : abf_cfg) (k : Z * Z) (s : abf_state) (i : abf_in) : abf_state * abf_out :=
     if awake k (st_clk s i)
     then (fst (abf_step c s i), mts_out c k i (snd (abf_step c s i)))
     else abf_sleep c s i.
-  Fixpoint abf_mrun_from (c : abf_cfg) (k : Z) (s : abf_state) (h : list abf_in) : abf_state * list abf_out :=
+  Fixpoint abf_mrun_from (c : abf_cfg) (k : Z * Z) (s : abf_state) (h : list abf_in) : abf_state * list abf_out :=
     match h with
     | [] => (s, [])
     | i :: r => let so := abf_mstep c k s i in
@@ -422,7 +427,7 @@ Section ABF.
     gsum (map (fun v => vget v k) (samples_in b S)).
   (* the trace of a history: the history zipped with what the model reports at each step *)
   (* timeStepFactor k: a step of the history yields a sample only if the bias is awake at it *)
-  Definition attributed_mts (c : abf_cfg) (k : Z) (tr : trace) : list (idx * vec) :=
+  Definition attributed_mts (c : abf_cfg) (k : Z * Z) (tr : trace) : list (idx * vec) :=
     map (fun d => (fst (fst d), snd (fst d)))
         (filter (fun d => awake k (snd d) && eligible c (snd d) && index_ok c (fst (fst d))) (deliveries_same c tr)).
   Definition trace_from (c : abf_cfg) (s : abf_state) (h : list abf_in) : trace := combine h (snd (abf_run_from c s h)).
